@@ -153,9 +153,13 @@ def rw_module(rng, spec, root, ref):
             elif r < 0.55:
                 t['params'].append({'name': 'extra_ign', 'ignore': True, 'default': 'dflt'})
                 what.append('ignored param')
-            elif r < 0.8:
+            elif r < 0.7:
                 t['params'].append({'name': 'extra_new', 'default': rng.choice([5, 'x', [1], None]), 'drop_default': True})
                 what.append('default-valued param')
+            elif r < 0.8:
+                # dtype=Path parameter whose default is given as a Path object, left at its default
+                t['params'].append({'name': 'extra_path', 'dtype': 'Path', 'default': rng.choice(['out/x', '/abs/dir', 'rel']), 'default_is_path': True, 'drop_default': True})
+                what.append('default-valued Path param')
             else:
                 t['inputs'].append({'form': 'name', 'ref': 'absent_task_for_c02', 'optional': True, 'default': 1, 'access': 'registry',
                                     'registry_key': 'absent_task_for_c02', 'in_parameters': rng.random() < 0.5})
@@ -211,7 +215,39 @@ def rw_global_vars(rng, spec, root, ref):
     return spec, root, ident(ref), 'other values behind the placeholders'
 
 
-REWRITINGS = {'rename': rw_rename, 'wrap': rw_wrap, 'permute': rw_permute, 'module': rw_module, 'to_context': rw_move_to_context, 'global_vars': rw_global_vars}
+def _respell_objects(rng, v):
+    """same parameter object, other spelling of its definition: ignored `verbose` added/changed, default-valued `b` spelled out or omitted"""
+    if isinstance(v, dict) and 'class' in v:
+        kw = {k: _respell_objects(rng, x) for k, x in v.get('kwargs', {}).items()}
+        if v['class'].endswith('.LabObj'):
+            if rng.random() < 0.5:
+                kw['verbose'] = not kw.get('verbose', False)
+            if 'b' not in kw and rng.random() < 0.5:
+                kw['b'] = 3
+            elif kw.get('b') == 3 and rng.random() < 0.5:
+                kw.pop('b')
+        items = list(kw.items())
+        rng.shuffle(items)
+        return {'class': v['class'], 'kwargs': dict(items)}
+    if isinstance(v, list):
+        return [_respell_objects(rng, x) for x in v]
+    if isinstance(v, dict):
+        return {k: _respell_objects(rng, x) for k, x in v.items()}
+    return v
+
+
+def rw_object_spelling(rng, spec, root, ref):
+    import json as _json
+    if 'LabObj' not in _json.dumps(spec['files']):
+        return None
+    spec, root = copy.deepcopy(spec), copy.deepcopy(root)
+    for f in spec['files'].values():
+        for pd in f['parts'].values():
+            pd['values'] = {k: _respell_objects(rng, v) for k, v in pd.get('values', {}).items()}
+    return spec, root, ident(ref), 'parameter-object definitions respelled (ignored verbose, default-valued b, kwargs order)'
+
+
+REWRITINGS = {'objects': rw_object_spelling, 'rename': rw_rename, 'wrap': rw_wrap, 'permute': rw_permute, 'module': rw_module, 'to_context': rw_move_to_context, 'global_vars': rw_global_vars}
 
 
 def compose(rng, spec, root, kinds, permute_inside_objects=True):
